@@ -13,3 +13,34 @@ Definition text_obs (x : pystr) : list (list pystr) :=
     py_split_ws x ].
 
 Definition obs_eqb : list (list pystr) -> list (list pystr) -> bool := list_eqb (list_eqb pystr_eqb).
+
+(** ** XML branch *)
+Definition is_text (n : xnode) : bool := match n with XT _ => true | XE _ _ _ => false end.
+Definition is_ws_text (n : xnode) : bool := match n with XT x => forallb is_xml_space x | XE _ _ _ => false end.
+Definition attrs_eqb (a b : list (pystr * pystr)) : bool :=
+  list_eqb (fun p q => pystr_eqb (fst p) (fst q) && pystr_eqb (snd p) (snd q)) a b.
+
+(** model result [m] against the re-parsed output [o] of the implementation.  The libxml2
+    serialiser (indent="yes") may add whitespace-only text nodes to an element that has no
+    text child; nothing else may differ. *)
+Fixpoint x_agree (m o : xnode) {struct m} : bool :=
+  match m, o with
+  | XT a, XT b => pystr_eqb a b
+  | XE n a k, XE n' a' k' =>
+      pystr_eqb n n' && attrs_eqb a a' &&
+      (fix go (l l' : list xnode) {struct l} : bool :=
+         match l, l' with
+         | [], [] => true
+         | x :: r, y :: r' => x_agree x y && go r r'
+         | _, _ => false
+         end) k (if existsb is_text k then k' else filter (fun x => negb (is_ws_text x)) k')
+  | _, _ => false
+  end.
+
+Record xcase := { xc_protected : list pystr; xc_input : xnode; xc_output : xnode }.
+
+Definition run_xcase (c : xcase) : bool :=
+  match norm_xml (xc_protected c) (xc_input c) with
+  | [m] => x_agree m (xc_output c)
+  | _ => false
+  end.
